@@ -15,13 +15,16 @@ MANIFEST = dict(
          'epoll_ctl results and late poller events: exactly one of connection / error, an error leaves no descriptor, operator slot or registration, '
          'a connection is one open registered descriptor, a deadline return reports Timeout(), the loops consume the script. Tied to /repo on every '
          'run by regenerated switch/select/guard tables (T-gen), a scripted differential run of the real code (system calls of the connect path '
-         'answered from the script, the harness playing poller and context) against the compiled model, and real loopback/unix dials judged by the '
-         'Lean spec oracle.',
+         'answered from the script, the harness playing poller and context) against the compiled model, and real loopback/unix dials - also '
+         'through DialTCP/DialUnix with a local address that is free, taken, not on the host or of the wrong family - judged by the '
+         'Lean spec oracle with a descriptor / operator-slot / registration census around every dial.',
     note='Partial: the wall-clock bound "timeout plus slack" is measured by the real-socket runs, not proved; `blocked` (script ends while parked in '
          'the select) is outside the theorems\' conclusions. Trusted: Lean kernel; axioms propext/Classical.choice/Quot.sound; extractor; harness, '
          'the mechanical call-site renaming that routes connect-path syscalls to the script, line protocol. Assumes socket(2) returns numbers > 2 '
          '(netFD.Close skips 0-2; witness C14_fd_le_2_leaks), poller events for the temporary operator only after EPOLL_CTL_ADD returned. '
-         'bind/address errors before connect are modelled but not executed by the harness. See DESIGN.md §6 C14 and §8.',
+         'bind/address errors before connect (local port taken, local address not on the host, network/address family mismatch, '
+         'existing unix path) are executed by the real-socket runs through DialTCP/DialUnix with a local address, not by the scripted run. '
+         'See DESIGN.md §6 C14 and §8.',
     technique='Lean 4 invariant proofs over syscall/wake-up scripts + scripted differential correspondence + real-socket spec oracle', design='§6 C14')
 MODULES = ['Netpoll.Props.C14', 'Netpoll.Tie.Dial']
 # functions the hand-written model mirrors (a changed fingerprint escalates the search budget, never alarms by itself)
@@ -229,7 +232,8 @@ def run(rep, prop=PROP):
     rep.cov['rule'] = ('scripted: scenarios generated by go/inpkg/dialh.go (connect(2) errno, wake-up lists, SO_ERROR, getpeername, epoll_ctl failure, late poller events, '
                        'self-connect / EADDRNOTAVAIL retries) executed on the real DialTCP path and on the Lean model, outcome and descriptor/slot/registration '
                        'ledger compared line by line, every line judged by the Lean spec oracle; real: loopback/unix dials (accept / refuse / full backlog / reset, '
-                       'v4 and v6, timeouts 20us..2s, up to 64 concurrent, ctx cancellation) judged by the spec oracle, the elapsed bound and the set of outcomes '
+                       'v4 and v6, timeouts 20us..2s, up to 64 concurrent, ctx cancellation; DialTCP/DialUnix with a local address: free, port taken, not on the host, '
+                       'wrong family, existing unix path) judged by the spec oracle, the elapsed bound and the set of outcomes '
                        'the model admits. distinct_nontrivial = distinct scripted script classes (first errno x event kinds x late x per attempt) + real '
                        '(class, net, seq/conc) cells')
     rep.cov['samples'] = samples[:6]
@@ -237,7 +241,9 @@ def run(rep, prop=PROP):
     rep.cov['scripted_outcomes'] = outcomes
     rep.cov['scripted_branch_histogram'] = branches
     rep.cov['model_branches_never_hit'] = [x for x in expected_branches if not branches.get(x)] + \
-        ['bind / address-conversion error before connect (DialConnection passes no local address)']
+        [x for x, cls in (('bind(2) error before connect', ('bind-inuse', 'bind-notlocal', 'unix-bind-exists')),
+                          ('address-conversion error before connect', ('family-raddr', 'family-laddr')))
+         if not any(k.split('/')[0] in cls for k in by_class)]
     rep.cov['stdlib_errno_facts_compared'] = hist.get('errnotimeout', 0) + hist.get('exctimeout', 0)
     rep.cov['real_dials'] = dials
     rep.cov['real_dials_in_concurrent_batches'] = conc
